@@ -11,8 +11,9 @@ package sql
 //@ func (*sqlMetadataStore).PutObject
 //@ mode effects
 //@ requires obj != nil
-//@ trust nonnil object.Repository
-//@ trust nonnil bucket.Repository
+//@ trust nonnil object.Repository.UpdateObjectByIdAndOptimisticLockVersion
+//@ trust nonnil object.Repository.DeleteObjectByIdAndOptimisticLockVersion
+//@ trust nonnil bucket.Repository.ExistsBucketByName
 //@ effect[C11:put-row-carries-supplied-values] every sms.objectRepository.SaveObject(_, _, $e) if $e != nil && $e.IsLatest
 //@     where specSameOpt($e.ContentType, obj.ContentType) && specSameOpt($e.StorageClass, obj.StorageClass) && specRowCarriesMetadata($e, obj.Metadata) && $e.Key == obj.Key
 //@ ensures[C11:put-replaces-tags-and-user-metadata] err == nil ==> called(sms.replaceObjectTags) && called(sms.replaceObjectUserMetadata)
@@ -55,7 +56,8 @@ package sql
 // user-metadata rows it deletes are those of the null version it replaces.
 //@ func (*sqlMetadataStore).CompleteMultipartUpload
 //@ mode effects
-//@ trust nonnil object.Repository
+//@ trust nonnil object.Repository.UpdateObjectByIdAndOptimisticLockVersion
+//@ trust nonnil object.Repository.DeleteObjectByIdAndOptimisticLockVersion
 //@ effect[C11:completed-row-is-the-pending-row] every sms.objectRepository.SaveObject(_, _, $e) if $e != nil && $e.IsLatest
 //@     needs before sms.objectRepository.FindObjectByBucketNameAndKeyAndUploadId(_, _, $b, $k, $u) -> ($p, $pe)
 //@     where $pe == nil && $p != nil && $e == $p && $b == bucketName && $k == key && $u == uploadId && specRowsAgreeOnMetadata($e, $p) && specSameOpt($e.StorageClass, $p.StorageClass)
@@ -80,7 +82,7 @@ package sql
 
 //@ func (*sqlMetadataStore).TransitionObject
 //@ mode effects
-//@ trust nonnil bucket.Repository
+//@ trust nonnil bucket.Repository.ExistsBucketByName
 //@ effect[C11:transition-changes-only-the-class-of-the-version] every sms.objectRepository.UpdateObjectByIdAndOptimisticLockVersion(_, _, $e, _) if versionID != nil
 //@     needs before sms.objectRepository.FindObjectByBucketNameAndKeyAndVersionID(_, _, $b, $k, $v) -> ($old, $oe)
 //@     where $oe == nil && $e != nil && $e.Id == $old.Id && $b == bucketName && $k == key && $v == *versionID && specRowsAgreeOnMetadata($e, $old) &&
@@ -91,3 +93,106 @@ package sql
 //@         $e.StorageClass != nil && *$e.StorageClass == storageClass && $e.ETag == expectedETag && $e.ETag == $old.ETag
 //@ effect[C11:transition-keeps-tags] never sms.tagRepository.$M(__)
 //@ effect[C11:transition-keeps-user-metadata] never sms.userMetadataRepository.$M(__)
+
+// ---------------------------------------------------------------------------------------------------------------
+// Versioning (C02, C13) and conditional writes (C07) of PutObject.
+//
+// C13/C02: the only rows PutObject destroys or overwrites are those of the null version of this key (the version an
+// unversioned / suspended write may replace); a versioning-enabled write inserts a fresh row with a generated version id.
+// C07: a conditional write that replaces a row first wins a compare-and-swap on exactly the row whose ETag satisfied
+// its condition, with the lock version it read.
+//@ func (*sqlMetadataStore).PutObject
+//@ mode effects
+//@ requires obj != nil
+//@ trust nonnil object.Repository.UpdateObjectByIdAndOptimisticLockVersion
+//@ trust nonnil object.Repository.DeleteObjectByIdAndOptimisticLockVersion
+//@ trust nonnil bucket.Repository.ExistsBucketByName
+//@ effect[C13:put-removes-parts-only-of-the-null-version] every sms.removePartRowsByObjectId(_, _, $id)
+//@     needs before sms.objectRepository.FindNullObjectVersionByBucketNameAndKey(_, _, $b, $k) -> ($n, $ne)
+//@     where $ne == nil && $n != nil && $b == bucketName && $k == obj.Key
+//@ effect[C02:enabled-write-inserts-a-new-version] every sms.objectRepository.SaveObject(_, _, $e) if $e != nil && $e.IsLatest && versioningEnabled
+//@     where $e.Id == nil && $e.VersionID != nil
+//@ effect[C02:unversioned-write-is-the-null-version] every sms.objectRepository.SaveObject(_, _, $e) if $e != nil && $e.IsLatest && !versioningEnabled
+//@     where specIsNullVersionID($e.VersionID)
+//@ effect[C13:overwritten-row-is-the-null-version] every sms.objectRepository.SaveObject(_, _, $e) if $e != nil && $e.IsLatest && $e.Id != nil
+//@     needs before sms.objectRepository.FindNullObjectVersionByBucketNameAndKey(_, _, $b, $k) -> ($n, $ne)
+//@     where $ne == nil && $n != nil && $e.Id == $n.Id && $b == bucketName && $k == obj.Key
+//@ effect[C07:conditional-put-wins-a-cas-first] every sms.objectRepository.SaveObject(_, _, $e) if $e != nil && $e.IsLatest && opts != nil && (opts.IfMatchETag != nil || opts.IfNoneMatchStar) && latestObjectEntity != nil
+//@     needs before sms.objectRepository.UpdateObjectByIdAndOptimisticLockVersion(_, _, $l, _) -> ($ok, $ue)
+//@     where $ue == nil && $ok != nil && *$ok
+//@ effect[C07:cas-on-the-row-that-satisfied-the-condition] every sms.objectRepository.UpdateObjectByIdAndOptimisticLockVersion(_, _, $l, $v)
+//@     where opts != nil && $l != nil && specETagConditionHolds($l, opts.IfMatchETag) && (opts.IfNoneMatchStar ==> $l.IsDeleteMarker) && $v == $l.OptimisticLockVersion
+//@ ensures[C07:if-match-needs-an-object] err == nil && opts != nil && opts.IfMatchETag != nil ==> called(sms.objectRepository.UpdateObjectByIdAndOptimisticLockVersion)
+
+// CompleteMultipartUpload: the same rules. Rows are destroyed only after the null version of this key was looked up and
+// found (never the current generated-id version); a conditional complete that replaces a row wins the CAS first.
+//@ func (*sqlMetadataStore).CompleteMultipartUpload
+//@ mode effects
+//@ trust nonnil object.Repository.UpdateObjectByIdAndOptimisticLockVersion
+//@ trust nonnil object.Repository.DeleteObjectByIdAndOptimisticLockVersion
+//@ effect[C13:complete-removes-parts-only-of-the-null-version] every sms.removePartRowsByObjectId(_, _, $id)
+//@     needs before sms.objectRepository.FindNullObjectVersionByBucketNameAndKey(_, _, $b, $k) -> ($n, $ne)
+//@     where $ne == nil && $n != nil && $id == *$n.Id && $b == bucketName && $k == key
+//@ effect[C13:complete-deletes-only-the-null-version-row] every sms.objectRepository.DeleteObjectById(_, _, $id)
+//@     needs before sms.objectRepository.FindNullObjectVersionByBucketNameAndKey(_, _, $b, $k) -> ($n, $ne)
+//@     where $ne == nil && $n != nil && $id == *$n.Id && $b == bucketName && $k == key
+//@ effect[C13:complete-cas-deletes-only-the-null-version-row] every sms.objectRepository.DeleteObjectByIdAndOptimisticLockVersion(_, _, $id, _)
+//@     needs before sms.objectRepository.FindNullObjectVersionByBucketNameAndKey(_, _, $b, $k) -> ($n, $ne)
+//@     where $ne == nil && $n != nil && $id == *$n.Id && $b == bucketName && $k == key
+//@ effect[C02:enabled-complete-is-a-new-version] every sms.objectRepository.SaveObject(_, _, $e) if $e != nil && $e.IsLatest && versioningEnabled where $e.VersionID != nil
+//@ effect[C02:unversioned-complete-is-the-null-version] every sms.objectRepository.SaveObject(_, _, $e) if $e != nil && $e.IsLatest && !versioningEnabled where specIsNullVersionID($e.VersionID)
+//@ effect[C07:conditional-complete-wins-a-cas-first] every sms.objectRepository.SaveObject(_, _, $e) if $e != nil && $e.IsLatest && opts != nil && (opts.IfMatchETag != nil || opts.IfNoneMatchStar) && latestObjectEntity != nil
+//@     needs before sms.objectRepository.UpdateObjectByIdAndOptimisticLockVersion(_, _, $l, _) -> ($ok, $ue)
+//@     where $ue == nil && $ok != nil && *$ok
+//@ effect[C07:complete-cas-on-the-row-that-satisfied-the-condition] every sms.objectRepository.UpdateObjectByIdAndOptimisticLockVersion(_, _, $l, $v)
+//@     where opts != nil && $l != nil && specETagConditionHolds($l, opts.IfMatchETag) && (opts.IfNoneMatchStar ==> $l.IsDeleteMarker) && $v == $l.OptimisticLockVersion
+
+// AppendObject. C12: the in-place append is a compare-and-swap on the row that was read (its lock version), a lost
+// race is reported as ErrCASFailure, the new part rows continue the existing sequence, and an existing row is never
+// blindly overwritten. C13: the in-place path is taken only outside versioning-enabled buckets.
+//@ func (*sqlMetadataStore).AppendObject
+//@ mode effects
+//@ requires obj != nil
+//@ inline PutObject
+//@ trust nonnil object.Repository.UpdateObjectByIdAndOptimisticLockVersion
+//@ effect[C12:append-is-a-cas-on-the-row-read] every sms.objectRepository.UpdateObjectByIdAndOptimisticLockVersion(_, _, $e, $v)
+//@     needs before sms.objectRepository.FindObjectByBucketNameAndKey(_, _, $b, $k) -> ($old, $oe)
+//@     where $oe == nil && $old != nil && $e != nil && $e.Id == $old.Id && $v == $old.OptimisticLockVersion && $b == bucketName && $k == obj.Key &&
+//@         $e.VersionID == $old.VersionID
+//@ effect[C12:existing-row-never-blindly-overwritten] never sms.objectRepository.SaveObject(_, _, _) if oldObjectEntity != nil
+//@ ensures[C12:lost-race-reported] called(sms.objectRepository.UpdateObjectByIdAndOptimisticLockVersion) && result_of(sms.objectRepository.UpdateObjectByIdAndOptimisticLockVersion, 1) == nil &&
+//@     !*result_of(sms.objectRepository.UpdateObjectByIdAndOptimisticLockVersion, 0) ==> err == metadatastore.ErrCASFailure
+//@ effect[C12:new-part-rows-continue-the-sequence] every sms.savePartRows(_, _, $id, $p, $from) if oldObjectEntity != nil where $from == len(existingParts)
+//@ effect[C13:in-place-append-only-without-enabled-versioning] every sms.objectRepository.UpdateObjectByIdAndOptimisticLockVersion(_, _, _, _) where !versioningEnabled
+
+// DeleteObject. C02/C13: deleting a named version destroys exactly that version's row; if it was the latest, the row
+// promoted is the one FindLatest...ExcludingID selects (newest remaining); a key-only delete in an Enabled / Suspended
+// bucket destroys at most the null version (Suspended only) and adds a delete marker; C07: an If-Match delete of an
+// unversioned object is a compare-and-swap on the row that satisfied the condition.
+//@ func (*sqlMetadataStore).DeleteObject
+//@ mode effects
+//@ trust nonnil object.Repository.UpdateObjectByIdAndOptimisticLockVersion
+//@ trust nonnil object.Repository.DeleteObjectByIdAndOptimisticLockVersion
+//@ effect[C13:named-delete-destroys-that-version] every sms.objectRepository.DeleteObjectById(_, _, $id) if opts != nil && opts.VersionID != nil
+//@     needs before sms.objectRepository.FindObjectByBucketNameAndKeyAndVersionID(_, _, $b, $k, $v) -> ($ve, $e)
+//@     where $e == nil && $ve != nil && $id == *$ve.Id && $b == bucketName && $k == key && $v == *opts.VersionID
+//@ effect[C02:promotion-takes-the-newest-remaining-version] every sms.objectRepository.SaveObject(_, _, $e) if $e != nil && $e.IsLatest && !$e.IsDeleteMarker && opts != nil && opts.VersionID != nil
+//@     needs before sms.objectRepository.FindLatestObjectByBucketNameAndKeyExcludingID(_, _, $b, $k, $x) -> ($n, $ne)
+//@     where $ne == nil && $n != nil && $e.Id == $n.Id && $b == bucketName && $k == key
+//@ effect[C02:key-only-delete-in-versioned-bucket-destroys-only-the-null-version] every sms.objectRepository.DeleteObjectById(_, _, $id) if (opts == nil || opts.VersionID == nil) && (versioningStatus == "Enabled" || versioningStatus == "Suspended")
+//@     needs before sms.objectRepository.FindNullObjectVersionByBucketNameAndKey(_, _, $b, $k) -> ($n, $ne)
+//@     where $ne == nil && $n != nil && $id == *$n.Id && $b == bucketName && $k == key && versioningStatus == "Suspended"
+//@ ensures[C02:key-only-delete-in-versioned-bucket-adds-a-marker] err == nil && (opts == nil || opts.VersionID == nil) && called(sms.objectRepository.FindNullObjectVersionByBucketNameAndKey) ==> result != nil && result.IsDeleteMarker
+//@ effect[C07:if-match-delete-is-a-cas] every sms.objectRepository.DeleteObjectByIdAndOptimisticLockVersion(_, _, $id, $v)
+//@     needs before sms.objectRepository.UpdateObjectByIdAndOptimisticLockVersion(_, _, $l, $lv) -> ($ok, $ue)
+//@     where $ue == nil && $ok != nil && *$ok && opts != nil && specETagConditionHolds($l, opts.IfMatchETag)
+
+// TransitionObject (C14): a successful transition has rewritten the row through the ETag-guarded compare-and-swap and
+// replaced the part rows by exactly the given parts - also when the class label itself does not change.
+//@ func (*sqlMetadataStore).TransitionObject
+//@ mode effects
+//@ trust nonnil object.Repository.UpdateObjectByIdAndOptimisticLockVersion
+//@ trust nonnil bucket.Repository.ExistsBucketByName
+//@ ensures[C14:transition-rewrites-row-and-parts] err == nil ==> called(sms.objectRepository.UpdateObjectByIdAndOptimisticLockVersion) && called(sms.removePartRowsByObjectId) && called(sms.savePartRows)
+//@ effect[C14:transition-stores-the-given-parts] every sms.savePartRows(_, _, $id, $p, $from) where $from == 0 && same($p, parts)
+//@ effect[C14:transition-keeps-the-version] every sms.objectRepository.UpdateObjectByIdAndOptimisticLockVersion(_, _, $e, _) where $e != nil && $e.ETag == expectedETag && !$e.IsDeleteMarker
